@@ -88,6 +88,17 @@ module Nat =
     leb (S n) m
  end
 
+(** val nth : nat -> 'a1 list -> 'a1 -> 'a1 **)
+
+let rec nth n l default =
+  match n with
+  | O -> (match l with
+          | [] -> default
+          | x :: _ -> x)
+  | S m -> (match l with
+            | [] -> default
+            | _ :: t -> nth m t default)
+
 (** val nth_error : 'a1 list -> nat -> 'a1 option **)
 
 let rec nth_error l = function
@@ -1155,7 +1166,7 @@ type stmt =
 | SSkip
 | SSeq of stmt * stmt
 | SAssign of var * atom_e
-| SCall of var option * fname * atom_e list
+| SCall of nat * var option * fname * atom_e list
 | SDeref of dsite * var
 | SIf of cond * stmt * stmt
 | SWhile of cond * stmt
@@ -1268,7 +1279,7 @@ let rec exec prog fuel st s oracle =
         | ONormal (s', o') -> exec prog fuel' s2 s' o'
         | x -> x)
      | SAssign (x, a) -> ONormal ((sset s x (eval_atom s a)), oracle)
-     | SCall (x, f, args) ->
+     | SCall (_, x, f, args) ->
        (match nth_error prog.p_funcs f with
         | Some fd ->
           let after = fun s' v ->
@@ -1322,19 +1333,39 @@ type asite =
 | SParam of fname * nat
 | SResult of fname
 | SGlobal of nat
+| SCallParam of fname * nat
+| SCallResult of fname * nat
 
 (** val enc : asite -> site **)
 
 let enc = function
 | SParam (f, i) ->
-  mul (S (S (S O)))
+  mul (S (S (S (S (S O)))))
     (add
       (mul f (S (S (S (S (S (S (S (S (S (S (S (S (S (S (S (S (S (S (S (S (S
         (S (S (S (S (S (S (S (S (S (S (S (S (S (S (S (S (S (S (S (S (S (S (S
         (S (S (S (S (S (S (S (S (S (S (S (S (S (S (S (S (S (S (S (S
         O))))))))))))))))))))))))))))))))))))))))))))))))))))))))))))))))) i)
-| SResult f -> add (mul (S (S (S O))) f) (S O)
-| SGlobal k -> add (mul (S (S (S O))) k) (S (S O))
+| SResult f -> add (mul (S (S (S (S (S O))))) f) (S O)
+| SGlobal k -> add (mul (S (S (S (S (S O))))) k) (S (S O))
+| SCallParam (f, cs) ->
+  add
+    (mul (S (S (S (S (S O)))))
+      (add
+        (mul cs (S (S (S (S (S (S (S (S (S (S (S (S (S (S (S (S (S (S (S (S
+          (S (S (S (S (S (S (S (S (S (S (S (S (S (S (S (S (S (S (S (S (S (S
+          (S (S (S (S (S (S (S (S (S (S (S (S (S (S (S (S (S (S (S (S (S (S
+          O)))))))))))))))))))))))))))))))))))))))))))))))))))))))))))))))))
+        f)) (S (S (S O)))
+| SCallResult (f, cs) ->
+  add
+    (mul (S (S (S (S (S O)))))
+      (add
+        (mul cs (S (S (S (S (S (S (S (S (S (S (S (S (S (S (S (S (S (S (S (S
+          (S (S (S (S (S (S (S (S (S (S (S (S (S (S (S (S (S (S (S (S (S (S
+          (S (S (S (S (S (S (S (S (S (S (S (S (S (S (S (S (S (S (S (S (S (S
+          O)))))))))))))))))))))))))))))))))))))))))))))))))))))))))))))))))
+        f)) (S (S (S (S O))))
 
 type prod0 =
 | PNil
@@ -1356,6 +1387,14 @@ let asite_eqb s t =
   | SGlobal k -> (match t with
                   | SGlobal l -> Nat.eqb k l
                   | _ -> false)
+  | SCallParam (f, c) ->
+    (match t with
+     | SCallParam (g, d) -> (&&) (Nat.eqb f g) (Nat.eqb c d)
+     | _ -> false)
+  | SCallResult (f, c) ->
+    (match t with
+     | SCallResult (g, d) -> (&&) (Nat.eqb f g) (Nat.eqb c d)
+     | _ -> false)
 
 (** val prod_eqb : prod0 -> prod0 -> bool **)
 
@@ -1374,17 +1413,22 @@ let prod_eqb p q =
                | PStale -> true
                | _ -> false)
 
-(** val kind_of : prod0 -> kind **)
-
-let kind_of = function
-| PNil -> KAlways
-| PSite s -> KCond (enc s)
-| _ -> KNever
-
 (** val use_ok : prod0 list -> bool **)
 
 let use_ok ps =
   negb (existsb (prod_eqb PStale) ps)
+
+type scons =
+| CAlways
+| CSite of asite
+
+type strig = { s_id : nat; s_prod : prod0; s_cons : scons;
+               s_ctrl : asite option }
+
+(** val mk_trigger : nat -> prod0 -> scons -> strig **)
+
+let mk_trigger id p c =
+  { s_id = id; s_prod = p; s_cons = c; s_ctrl = None }
 
 type aset = prod0 list
 
@@ -1414,11 +1458,6 @@ let prods_of_atom e = function
 | ANil -> PNil :: []
 | ANew -> PNever :: []
 | AVar x -> aget e x
-
-(** val mk_trigger : nat -> prod0 -> kind -> trigger **)
-
-let mk_trigger id p c =
-  { t_id = id; t_prod = (kind_of p); t_cons = c; t_ctrl = None }
 
 (** val keys : env -> var list **)
 
@@ -1463,14 +1502,14 @@ let join_opt o1 o2 =
                 | None -> o1)
   | None -> o2
 
-(** val acond : cond -> env -> ((env * env) * trigger list) * bool **)
+(** val acond : cond -> env -> ((env * env) * strig list) * bool **)
 
 let rec acond c e =
   match c with
   | COpaque -> (((e, e), []), true)
   | CNonNil x -> ((((aput e x (PNever :: [])), e), []), true)
   | CDeref (d, x) ->
-    (((e, e), (map (fun p -> mk_trigger d p KAlways) (aget e x))),
+    (((e, e), (map (fun p -> mk_trigger d p CAlways) (aget e x))),
       (use_ok (aget e x)))
   | CNot c1 ->
     let (p, b) = acond c1 e in
@@ -1497,21 +1536,21 @@ let rec acond c e =
 let cond_true c e =
   fst (fst (fst (acond c e)))
 
-(** val store_triggers : var -> aset -> trigger list **)
+(** val store_triggers : var -> aset -> strig list **)
 
 let store_triggers x a =
   match x with
   | VL _ -> []
-  | VG k -> map (fun p -> mk_trigger O p (KCond (enc (SGlobal k)))) a
+  | VG k -> map (fun p -> mk_trigger O p (CSite (SGlobal k))) a
 
-(** val arg_triggers : env -> fname -> nat -> atom_e list -> trigger list **)
+(** val arg_triggers :
+    env -> (nat -> asite) -> nat -> atom_e list -> strig list **)
 
-let rec arg_triggers e g i = function
+let rec arg_triggers e sf i = function
 | [] -> []
 | a :: args' ->
-  app
-    (map (fun p -> mk_trigger O p (KCond (enc (SParam (g, i)))))
-      (prods_of_atom e a)) (arg_triggers e g (S i) args')
+  app (map (fun p -> mk_trigger O p (CSite (sf i))) (prods_of_atom e a))
+    (arg_triggers e sf (S i) args')
 
 (** val fresh : env -> nat -> bool **)
 
@@ -1527,7 +1566,26 @@ let rec mark_stale ng e =
     let e' = mark_stale k e in
     if fresh e k then e' else aput e' (VG k) (PStale :: (aget e (VG k)))
 
-type ares = { a_env : env option; a_trig : trigger list; a_gsafe : bool }
+(** val is_nil_atom : atom_e -> bool **)
+
+let is_nil_atom = function
+| ANil -> true
+| _ -> false
+
+(** val call_param_site : (fname -> bool) -> fname -> nat -> nat -> asite **)
+
+let call_param_site ctr g cs i =
+  if ctr g then SCallParam (g, cs) else SParam (g, i)
+
+(** val call_result_site :
+    (fname -> bool) -> (fname -> bool) -> fname -> nat -> atom_e list -> asite **)
+
+let call_result_site ctr sp g cs args =
+  if (&&) (ctr g) ((||) (sp g) (negb (forallb is_nil_atom args)))
+  then SCallResult (g, cs)
+  else SResult g
+
+type ares = { a_env : env option; a_trig : strig list; a_gsafe : bool }
 
 (** val loop_inv :
     (env -> ares option) -> cond -> nat -> env -> (env * ares) option **)
@@ -1546,17 +1604,19 @@ let rec loop_inv an_body c n e =
         | None -> Some (e, r))
      | None -> None)
 
-(** val analyze : nat -> fname -> nat -> stmt -> env -> ares option **)
+(** val analyze :
+    nat -> (fname -> bool) -> (fname -> bool) -> fname -> nat -> stmt -> env
+    -> ares option **)
 
-let rec analyze ng f fuel st e =
+let rec analyze ng ctr sp f fuel st e =
   match st with
   | SSkip -> Some { a_env = (Some e); a_trig = []; a_gsafe = true }
   | SSeq (s1, s2) ->
-    (match analyze ng f fuel s1 e with
+    (match analyze ng ctr sp f fuel s1 e with
      | Some r1 ->
        (match r1.a_env with
         | Some e1 ->
-          (match analyze ng f fuel s2 e1 with
+          (match analyze ng ctr sp f fuel s2 e1 with
            | Some r2 ->
              Some { a_env = r2.a_env; a_trig = (app r1.a_trig r2.a_trig);
                a_gsafe = ((&&) r1.a_gsafe r2.a_gsafe) }
@@ -1567,29 +1627,29 @@ let rec analyze ng f fuel st e =
     let ps = prods_of_atom e a in
     Some { a_env = (Some (aput e x ps)); a_trig = (store_triggers x ps);
     a_gsafe = ((||) (use_ok ps) (negb (is_glob x))) }
-  | SCall (x, g, args) ->
-    let res = (PSite (SResult g)) :: [] in
+  | SCall (cs, x, g, args) ->
+    let res = (PSite (call_result_site ctr sp g cs args)) :: [] in
     let e' = mark_stale ng e in
     Some { a_env = (Some
     (match x with
      | Some y -> aput e' y res
      | None -> e')); a_trig =
-    (app (arg_triggers e g O args)
+    (app (arg_triggers e (call_param_site ctr g cs) O args)
       (match x with
        | Some y -> store_triggers y res
        | None -> [])); a_gsafe =
     (forallb (fun a -> use_ok (prods_of_atom e a)) args) }
   | SDeref (d, x) ->
     Some { a_env = (Some e); a_trig =
-      (map (fun p -> mk_trigger d p KAlways) (aget e x)); a_gsafe =
+      (map (fun p -> mk_trigger d p CAlways) (aget e x)); a_gsafe =
       (use_ok (aget e x)) }
   | SIf (c, s1, s2) ->
     let (p, bc) = acond c e in
     let (p0, trc) = p in
     let (et, ef) = p0 in
-    (match analyze ng f fuel s1 et with
+    (match analyze ng ctr sp f fuel s1 et with
      | Some r1 ->
-       (match analyze ng f fuel s2 ef with
+       (match analyze ng ctr sp f fuel s2 ef with
         | Some r2 ->
           Some { a_env = (join_opt r1.a_env r2.a_env); a_trig =
             (app trc (app r1.a_trig r2.a_trig)); a_gsafe =
@@ -1597,7 +1657,7 @@ let rec analyze ng f fuel st e =
         | None -> None)
      | None -> None)
   | SWhile (c, body) ->
-    (match loop_inv (analyze ng f fuel body) c fuel e with
+    (match loop_inv (analyze ng ctr sp f fuel body) c fuel e with
      | Some p ->
        let (einv, r) = p in
        let (p0, bc) = acond c einv in
@@ -1608,8 +1668,8 @@ let rec analyze ng f fuel st e =
      | None -> None)
   | SReturn a ->
     Some { a_env = None; a_trig =
-      (map (fun p -> mk_trigger O p (KCond (enc (SResult f))))
-        (prods_of_atom e a)); a_gsafe = (use_ok (prods_of_atom e a)) }
+      (map (fun p -> mk_trigger O p (CSite (SResult f))) (prods_of_atom e a));
+      a_gsafe = (use_ok (prods_of_atom e a)) }
 
 (** val entry_env : fname -> nat -> nat -> env **)
 
@@ -1617,49 +1677,131 @@ let rec entry_env f i = function
 | O -> []
 | S n' -> ((VL i), ((PSite (SParam (f, i))) :: [])) :: (entry_env f (S i) n')
 
-(** val analyze_func :
-    nat -> nat -> fname -> func -> (trigger list * bool) option **)
+(** val falloff : fname -> strig **)
 
-let analyze_func ng fuel f fd =
-  match analyze ng f fuel fd.f_body (entry_env f O fd.f_nparams) with
+let falloff f =
+  mk_trigger O PNil (CSite (SResult f))
+
+(** val analyze_func :
+    nat -> nat -> (fname -> bool) -> (fname -> bool) -> fname -> func ->
+    (strig list * bool) option **)
+
+let analyze_func ng fuel ctr sp f fd =
+  match analyze ng ctr sp f fuel fd.f_body (entry_env f O fd.f_nparams) with
   | Some r ->
     Some
       ((match r.a_env with
-        | Some _ ->
-          app r.a_trig ((mk_trigger O PNil (KCond (enc (SResult f)))) :: [])
+        | Some _ -> app r.a_trig ((falloff f) :: [])
         | None -> r.a_trig), r.a_gsafe)
   | None -> None
 
 (** val analyze_funcs :
-    nat -> nat -> fname -> func list -> (trigger list list * bool) option **)
+    nat -> nat -> (fname -> bool) -> (fname -> fname -> bool) -> fname ->
+    func list -> (strig list list * bool) option **)
 
-let rec analyze_funcs ng fuel f = function
+let rec analyze_funcs ng fuel ctr sp f = function
 | [] -> Some ([], true)
 | fd :: rest ->
-  (match analyze_func ng fuel f fd with
+  (match analyze_func ng fuel ctr (sp f) f fd with
    | Some p ->
      let (t1, b1) = p in
-     (match analyze_funcs ng fuel (S f) rest with
+     (match analyze_funcs ng fuel ctr sp (S f) rest with
       | Some p0 -> let (t2, b2) = p0 in Some ((t1 :: t2), ((&&) b1 b2))
       | None -> None)
    | None -> None)
 
-(** val decl_triggers : nat -> bool list -> trigger list **)
+(** val decl_triggers : nat -> bool list -> strig list **)
 
 let rec decl_triggers k = function
 | [] -> []
 | b :: gi' ->
-  app (if b then [] else (mk_trigger O PNil (KCond (enc (SGlobal k)))) :: [])
+  app (if b then [] else (mk_trigger O PNil (CSite (SGlobal k))) :: [])
     (decl_triggers (S k) gi')
 
-(** val analyze_program :
-    nat -> program -> ((trigger list * trigger list list) * bool) option **)
+(** val is_param_prod : fname -> strig -> bool **)
 
-let analyze_program fuel p =
-  match analyze_funcs (length p.p_ginit) fuel O p.p_funcs with
-  | Some p0 ->
-    let (tss, b) = p0 in Some (((decl_triggers O p.p_ginit), tss), b)
-  | None -> None
+let is_param_prod g t =
+  prod_eqb t.s_prod (PSite (SParam (g, O)))
+
+(** val is_res_cons : fname -> strig -> bool **)
+
+let is_res_cons g t =
+  match t.s_cons with
+  | CAlways -> false
+  | CSite s -> asite_eqb s (SResult g)
+
+(** val touches : fname -> strig -> bool **)
+
+let touches g t =
+  (||) (is_param_prod g t) (is_res_cons g t)
+
+(** val dupt : fname -> nat -> strig -> strig **)
+
+let dupt g cs t =
+  { s_id = t.s_id; s_prod =
+    (if is_param_prod g t then PSite (SCallParam (g, cs)) else t.s_prod);
+    s_cons =
+    (if is_res_cons g t then CSite (SCallResult (g, cs)) else t.s_cons);
+    s_ctrl = (if is_res_cons g t then Some (SCallParam (g, cs)) else None) }
+
+(** val dups : fname -> nat -> strig list -> strig list **)
+
+let dups g cs tg =
+  map (dupt g cs) (filter (touches g) tg)
+
+(** val calls_of : stmt -> (fname * nat) list **)
+
+let rec calls_of = function
+| SSeq (a, b) -> app (calls_of a) (calls_of b)
+| SCall (cs, _, g, _) -> (g, cs) :: []
+| SIf (_, a, b) -> app (calls_of a) (calls_of b)
+| SWhile (_, b) -> calls_of b
+| _ -> []
+
+(** val dups_of_caller :
+    (fname -> bool) -> (fname -> bool) -> strig list list -> func -> strig
+    list **)
+
+let dups_of_caller ctr sp tss fd =
+  flat_map (fun gc ->
+    if (&&) (ctr (fst gc)) (sp (fst gc))
+    then dups (fst gc) (snd gc) (nth (fst gc) tss [])
+    else []) (calls_of fd.f_body)
+
+(** val dups_all :
+    (fname -> bool) -> (fname -> fname -> bool) -> strig list list -> fname
+    -> func list -> strig list list **)
+
+let rec dups_all ctr sp tss f = function
+| [] -> []
+| fd :: rest ->
+  (dups_of_caller ctr (sp f) tss fd) :: (dups_all ctr sp tss (S f) rest)
+
+(** val ctr_local :
+    (fname -> bool) -> (fname -> fname -> bool) -> fname -> func list -> bool **)
+
+let rec ctr_local ctr sp f = function
+| [] -> true
+| fd :: rest ->
+  (&&)
+    (forallb (fun gc -> (||) (negb (ctr (fst gc))) (sp f (fst gc)))
+      (calls_of fd.f_body)) (ctr_local ctr sp (S f) rest)
+
+type pres = { r_decl : strig list; r_funcs : strig list list;
+              r_dups : strig list list; r_gsafe : bool; r_clocal : bool }
+
+(** val analyze_program :
+    nat -> (fname -> bool) -> (fname -> nat) -> program -> pres option **)
+
+let analyze_program fuel ctr pk p =
+  let sp = fun f g -> Nat.eqb (pk f) (pk g) in
+  (match analyze_funcs (length p.p_ginit) fuel ctr sp O p.p_funcs with
+   | Some p0 ->
+     let (tss, b) = p0 in
+     Some { r_decl = (decl_triggers O p.p_ginit); r_funcs = tss; r_dups =
+     (dups_all ctr sp tss O p.p_funcs); r_gsafe = b; r_clocal =
+     (ctr_local ctr sp O p.p_funcs) }
+   | None -> None)
 
 (** val var_ok : program -> var -> bool **)
 
@@ -1689,7 +1831,7 @@ let rec stmt_ok p = function
 | SSkip -> true
 | SSeq (a, b) -> (&&) (stmt_ok p a) (stmt_ok p b)
 | SAssign (x, a) -> (&&) (var_ok p x) (atom_ok p a)
-| SCall (x, g, args) ->
+| SCall (_, x, g, args) ->
   (&&)
     ((&&)
       (match nth_error p.p_funcs g with
@@ -1710,3 +1852,11 @@ let wf_program p =
     (match p.p_funcs with
      | [] -> true
      | fd :: _ -> Nat.eqb fd.f_nparams O)
+
+(** val ctr_arity : (fname -> bool) -> fname -> func list -> bool **)
+
+let rec ctr_arity ctr f = function
+| [] -> true
+| fd :: rest ->
+  (&&) ((||) (negb (ctr f)) (Nat.eqb fd.f_nparams (S O)))
+    (ctr_arity ctr (S f) rest)
